@@ -1,4 +1,6 @@
 import J5V.Compile.ConvertProofs
+import J5V.Compile.ShapeProofs
+import J5V.Generated.CompileconstsFacts
 /-!
 # C02 — j5s compiles to exactly the protobuf contract the source declares
 
@@ -106,6 +108,76 @@ theorem C02_path_rewrite (req : List Property) (resolved : Str) :
     (rewritePath req resolved).1 =
       joinWith b!"/" ((splitOnByte 47 resolved).map rewritePart) := rfl
 
+/-- **Service shape.** A service `N` whose methods all have a request and a supported verb is
+emitted into the `.service` sub-package as service `NService`; each method `M` becomes an rpc with
+input `MRequest`, output `MResponse` (or `google.api.HttpBody` when no response is declared), the
+declared HTTP verb (body `*` unless GET), and the path `base/path` with every `:name` rewritten to
+`{snake_name}`; the request / response objects are messages of the same file. -/
+theorem C02_service_shape (c : Ctx) (s : Service) (name : Str) (hn : s.name = some name)
+    (hreq : ∀ m ∈ s.methods, m.request.isSome = true)
+    (hv : ∀ m ∈ s.methods, m.verb ≠ .unspecified) :
+    (convService c s).target = .service ∧ (convService c s).hard = false ∧
+    (convService c s).svcs =
+      [{ name := name ++ b!"Service", sopt := soptSkel s.sopt,
+         methods := s.methods.map (methodSkelOf s.basePath) }] :=
+  convService_shape c s name hn hreq hv
+
+theorem C02_service_messages (c : Ctx) (bp : Option Str) (m : Method) (req : List Property)
+    (hr : m.request = some req) :
+    (declMsg c [] false [] (m.name ++ b!"Request") req [] none) ∈ (walkMethod c bp m).eff.msgs ∧
+    ∀ res, m.response = some res →
+      (declMsg c [] false [] (m.name ++ b!"Response") res [] none) ∈ (walkMethod c bp m).eff.msgs :=
+  walkMethod_msgs c bp m req hr
+
+/-- **Sub-package files.** Service and topic output of `dir/base.j5s` goes to
+`dir/<sub>/base.p.j5s.proto` in package `<package>.<sub>`; the file is created on first use. -/
+theorem C02_subpackage_file (r : Root) (s : Step) (sub : Str) (hs : s.target.sub = some sub)
+    (hnew : r.subs.any (·.2.pkg = r.main.pkg ++ b!"." ++ sub) = false) :
+    ∃ f, (sub, f) ∈ (r.apply s).subs ∧ f.pkg = r.main.pkg ++ b!"." ++ sub ∧
+      f.name = subPackageFileName r.main.name sub ∧ f.svcs = s.svcs ∧ f.msgs = s.eff.msgs := by
+  unfold Root.apply
+  simp only [hs, hnew, Bool.false_eq_true, if_false]
+  refine ⟨({ name := subPackageFileName r.main.name sub, pkg := r.main.pkg ++ b!"." ++ sub } : FileB).apply
+      s.eff s.svcs, ?_, rfl, rfl, by simp [FileB.apply], by simp [FileB.apply]⟩
+  simp only [List.map_append, List.mem_append, List.map_cons, List.map_nil, List.mem_singleton]
+  right
+  simp
+
+/-- **Topic shape.** When every message has a name (or the topic has a single message), a topic
+`T` yields, in the `.topic` sub-package, one message object `<Name>Message` per message and a
+service `<CamelCase(T)>Topic` carrying the messaging role, with one rpc per message returning
+`google.protobuf.Empty`. -/
+theorem C02_topic_shape (c : Ctx) (t : TopicNode)
+    (hnames : ∀ m ∈ t.msgs, (topicMethodName t m).isSome = true) :
+    (∀ s ∈ acceptTopic c t, s.target = .topic ∧ s.hard = false) ∧
+    ∃ last, (acceptTopic c t).getLast? = some last ∧
+      last.svcs =
+        [{ name := toCamel t.name ++ b!"Topic", sopt := .topic t.topicName t.role t.entityName,
+           methods := t.msgs.filterMap fun m => (topicMethodName t m).map fun n =>
+             { name := n, input := n ++ b!"Message", output := googleProtoEmptyType, http := none,
+               mopt := .none } }] :=
+  acceptTopic_shape c t hnames
+
+/-- **Messaging roles and implicit leading fields.** publish → role `publish`; reqres → two
+topics `<T>Request` / `<T>Reply` with roles `request` / `reply`, both with the implicit leading
+field `request` (`j5.messaging.v1.RequestMetadata`, required); upsert → role `upsert` with the
+implicit leading field `upsert` (`UpsertMetadata`, required); topic name `snake(T)` throughout. -/
+theorem C02_topic_roles (c : Ctx) (name : Str) (msgs reqs reps : List TopicMsg) (en : Str) (msg : TopicMsg) :
+    convTopic c { name := name, type := .publish msgs } =
+      acceptTopic c { name := name, msgs := msgs, topicName := toSnake name, role := .publish } ∧
+    convTopic c { name := name, type := .reqres reqs reps } =
+      acceptTopic c { name := name ++ b!"Request", msgs := reqs, topicName := toSnake name,
+                      role := .request, prepend := requestPrepend } ++
+      acceptTopic c { name := name ++ b!"Reply", msgs := reps, topicName := toSnake name,
+                      role := .reply, prepend := requestPrepend } ∧
+    convTopic c { name := name, type := .upsert en msg } =
+      acceptTopic c { name := name, msgs := [{ msg with name := some (msg.name.getD name) }],
+                      topicName := toSnake name, role := .upsert, entityName := en,
+                      prepend := upsertPrepend } ∧
+    requestPrepend = [.mk b!"request" true false (.objectRef b!"j5.messaging.v1" b!"RequestMetadata" false [])] ∧
+    upsertPrepend = [.mk b!"upsert" true false (.objectRef b!"j5.messaging.v1" b!"UpsertMetadata" false [])] :=
+  ⟨rfl, rfl, rfl, rfl, rfl⟩
+
 /-! ## Non-vacuity -/
 
 /-- a concrete object: two scalar fields and an inline object, converted without error -/
@@ -129,7 +201,57 @@ example :
 example : (rewritePath [.mk b!"fooId" true false (.string [] false)] b!"/foo/v1/:fooId/x").1 =
     b!"/foo/v1/{foo_id}/x" := by decide
 
+example : subPackageFileName b!"foo/v1/a.j5s.proto" b!"service" = b!"foo/v1/service/a.p.j5s.proto" := by
+  decide
+
+def exMethod : Method :=
+  { name := b!"GetFoo", verb := .get, path := b!":fooId/x",
+    request := some [.mk b!"fooId" true false (.string [] false)], response := none }
+
+example : (methodSkelOf (some b!"/foo/v1") exMethod).http =
+    some { verb := .get, path := b!"/foo/v1/{foo_id}/x", body := [] } := by decide
+
 example : (convEnum { name := b!"Status", pfx := [], opts := [b!"ACTIVE", b!"STATUS_DONE"] }).values =
     [(b!"STATUS_UNSPECIFIED", 0), (b!"STATUS_ACTIVE", 1), (b!"STATUS_DONE", 2)] := by decide
+
+end J5V.Props.C02
+
+/-! ## Obligations over facts regenerated from the current source (`extract compileconsts`)
+
+The model hard-codes the import paths of `j5convert/imports.go` and the `implicitImports` table;
+these obligations re-check on every run that the source still says the same. -/
+namespace J5V.Props.C02
+open J5V.Compile J5V.Generated.Compileconsts
+
+/-- the import constants the model uses are those of `imports.go` -/
+theorem C02_src_import_consts :
+    importConsts.lookup "bufValidateImport" = some bufValidateImport.toString ∧
+    importConsts.lookup "j5ExtImport" = some j5ExtImport.toString ∧
+    importConsts.lookup "j5DateImport" = some j5DateImport.toString ∧
+    importConsts.lookup "j5DecimalImport" = some j5DecimalImport.toString ∧
+    importConsts.lookup "j5ListAnnotationsImport" = some j5ListAnnotationsImport.toString ∧
+    importConsts.lookup "pbTimestamp" = some pbTimestampImport.toString ∧
+    importConsts.lookup "j5AnyImport" = some j5AnyImport.toString ∧
+    importConsts.lookup "googleApiHttpBodyImport" = some googleApiHttpBodyImport.toString ∧
+    importConsts.lookup "googleApiAnnotationsImport" = some googleApiAnnotationsImport.toString ∧
+    importConsts.lookup "googleProtoEmptyImport" = some googleProtoEmptyImport.toString ∧
+    importConsts.lookup "messagingAnnotationsImport" = some messagingAnnotationsImport.toString ∧
+    importConsts.lookup "googleProtoEmptyType" = some googleProtoEmptyType.toString := by
+  decide
+
+/-- the `implicitImports` table of the model is the one in the source -/
+theorem C02_src_implicit_imports :
+    J5V.Generated.Compileconsts.implicitImports =
+      J5V.Compile.implicitImports.flatMap fun (pkg, ts) =>
+        ts.map fun t => (pkg.toString, t.name.toString, t.file.toString) := by
+  decide
+
+/-- the name suffixes and formats of services and topics -/
+theorem C02_src_suffixes :
+    ("sourcewalk/service.go", "serviceBuilder.accept", "%sRequest") ∈ stringLiterals ∧
+    ("sourcewalk/service.go", "serviceBuilder.accept", "%sResponse") ∈ stringLiterals ∧
+    ("sourcewalk/service.go", "serviceBuilder.accept", "Service") ∈ stringLiterals ∧
+    ("sourcewalk/service.go", "serviceBuilder.accept", "google.api.HttpBody") ∈ stringLiterals := by
+  decide
 
 end J5V.Props.C02
